@@ -63,7 +63,7 @@ def run_case(acc, case):
             if dev.dnloads or bytes(dev.flash) != dev.initial:
                 core.add_viol(acc, 'firmware of %d bytes for a %d-byte flash%s: %d DNLOAD requests were sent (first %r)' % (
                     length, pages * 1024, mode, dev.dnloads, next((e for e in dev.log if e[1] == 'DNLOAD'), None)), case, {})
-            if r.code == 0 or r.done_printed:
+            if r.code == 0 or r.done_printed or r.stuck:
                 core.add_viol(acc, 'oversize firmware (%d bytes > %d)%s: exit status %r, done printed: %s' % (length, pages * 1024, mode, r.code, r.done_printed), case,
                               {'stdout_tail': r.stdout[-200:]})
         return
@@ -98,6 +98,8 @@ def run_case(acc, case):
     low = out.lower()
     named = any(DESCR[s].lower()[:30] in low for _k, s in dev.error_reports if s in DESCR) or 'error' in low or 'fail' in low
     problems = []
+    if r.stuck:
+        problems.append('never ends (%s)' % r.stuck[:120])
     if r.done_printed:
         problems.append('announces success ("done!")')
     if r.code == 0:
